@@ -268,6 +268,45 @@ fn run_case(case: &Case, limit: u16, alpha: &[Record], l: &mut Local) {
     }
 }
 
+/// (g) one message per entry of the shared RDATA alphabet (every typed RDATA hickory has an
+/// emitter for, incl. the ones with inner lists: SVCB/HTTPS hints and mandatory keys, OPT-like
+/// option lists, type bitmaps, TXT string lists ...): [A answer, X answer] [NS authority]
+/// [A additional] x EDNS on/off, under EVERY limit 12..len+2.
+fn run_typed_case(tag: &str, rtype: u16, m: &Message, limit: u16, l: &mut Local) {
+    l.eval();
+    let wit = |bytes: Option<&[u8]>| {
+        let mut j = json!({"typed": tag, "rtype": rtype, "edns": m.edns.is_some(), "limit": limit});
+        if let Some(b) = bytes {
+            j["bytes"] = json!(hex::enc(b));
+        }
+        j
+    };
+    match catch(|| encode_with_limit(m, limit)) {
+        Err(p) => l.violation(&format!("panic:{}", vcore::short_loc(&p.loc)), &format!("encoder panicked: {}", p.msg), || wit(None)),
+        Ok(Err(_)) => l.outcome("encode-failed"),
+        Ok(Ok(bytes)) => {
+            if let Some((clause, what)) = judge(m, limit as usize, &bytes, l) {
+                l.violation(&format!("{clause}:type{rtype}"), &what, || wit(Some(&bytes)));
+            }
+        }
+    }
+}
+
+fn typed_message(value: &RData, edns: bool) -> Message {
+    let mut m = Message::new(0x0102, MessageType::Response, OpCode::Query);
+    m.add_query(Query::new(n("www.example.com."), RecordType::A));
+    m.add_answer(Record::from_rdata(n("www.example.com."), 300, RData::A(A::new(192, 0, 2, 1))));
+    m.add_answer(Record::from_rdata(n("x.example.com."), 300, value.clone()));
+    m.add_authority(Record::from_rdata(n("example.com."), 86400, RData::NS(NS(n("ns2.example.com.")))));
+    m.add_additional(Record::from_rdata(n("ns2.example.com."), 60, RData::A(A::new(192, 0, 2, 53))));
+    if edns {
+        let mut e = Edns::new();
+        e.set_max_payload(1232);
+        m.set_edns(e);
+    }
+    m
+}
+
 // ------------------------------------------------------------------------------------------
 // server path
 //
@@ -791,6 +830,12 @@ fn main() {
                     let front = hickory_server::Server::new(build_catalog(&z));
                     run_srv_case(&z, &cat, Some(&front), &q, case["payload"].as_i64().unwrap() as i32, &rt, l);
                 }
+            } else if let Some(tag) = case["typed"].as_str() {
+                let entries = c01::alphabet::rdata_alphabet(true);
+                if let Some(e) = entries.iter().find(|e| e.tag == tag) {
+                    let m = typed_message(&e.value, case["edns"].as_bool().unwrap_or(false));
+                    run_typed_case(&e.tag, e.rtype, &m, case["limit"].as_u64().unwrap_or(512) as u16, l);
+                }
             } else {
                 let (c, limit) = Case::from_json(&case);
                 let alpha = alphabet(true);
@@ -1123,6 +1168,27 @@ fn main() {
         },
     );
     fam_wall.push(("f:unencodable-record", t0.elapsed().as_secs_f64()));
+
+    // (g) every typed RDATA of the shared alphabet under every limit
+    let entries = c01::alphabet::rdata_alphabet(thorough);
+    ctx.set("typed_rdata_entries", json!(entries.len()));
+    ctx.par_run(entries.len() as u64 * 2, 1, |i, l| {
+        let e = &entries[(i / 2) as usize];
+        if e.rtype == 41 || e.rtype == 250 || e.rtype == 24 {
+            return; // OPT, TSIG and SIG(0) are message-level records (only valid in the additional section)
+        }
+        let m = typed_message(&e.value, i % 2 == 1);
+        let Ok(full) = m.to_vec() else {
+            l.outcome("typed:unencodable-entry");
+            return;
+        };
+        let top = (full.len() + 2).min(65535);
+        for limit in 12..=top {
+            run_typed_case(&e.tag, e.rtype, &m, limit as u16, l);
+        }
+        l.outcome("typed:entry");
+    });
+    fam_wall.push(("g:typed-rdata", t0.elapsed().as_secs_f64()));
 
     // (d) large messages through the plain encoder: k copies of a 300-byte TXT record (up to
     //     ~84 KiB) under the limits around every multiple of the record size near 64 KiB
